@@ -54,14 +54,50 @@ def _fracs():
     return raw.map(lambda r: r / 65536.0 if r & 0xFFFF else r >> 16)
 
 
+_CACHE = {}
+
+
 def _numbers(frac, big=False):
-    if not frac:
-        return _ints(big)
-    return st.one_of(_ints(big), _ints(big), _fracs())
+    """number strategy (cached: building strategies inside a composite is expensive)"""
+    k = ("num", bool(frac), bool(big))
+    if k not in _CACHE:
+        _CACHE[k] = _ints(big) if not frac else st.one_of(_ints(big), _ints(big), _fracs())
+    return _CACHE[k]
 
 
 def _nonzero(frac):
-    return _numbers(frac).filter(lambda v: v != 0)
+    k = ("nz", bool(frac))
+    if k not in _CACHE:
+        _CACHE[k] = st.tuples(_numbers(frac), st.sampled_from([1, -1, 2, -3, 7, -12, 100])).map(lambda t: t[0] if t[0] != 0 else t[1])
+    return _CACHE[k]
+
+
+def _lists(elem, n):
+    k = ("list", id(elem), n)
+    if k not in _CACHE:
+        _CACHE[k] = (elem, st.lists(elem, min_size=n, max_size=n))
+    return _CACHE[k][1]
+
+
+_B = st.booleans()
+_I = {}
+
+
+def _int(lo, hi):
+    k = (lo, hi)
+    if k not in _I:
+        _I[k] = st.integers(lo, hi)
+    return _I[k]
+
+
+_S = {}
+
+
+def _pick(seq):
+    k = tuple(seq) if not isinstance(seq, str) else seq
+    if k not in _S:
+        _S[k] = st.sampled_from(list(seq))
+    return _S[k]
 
 
 # ---------------------------------------------------------------------------
@@ -145,9 +181,9 @@ _GENERAL_RUNS = ["alt-lines-h", "alt-lines-v", "same-lines-h", "same-lines-v", "
 
 def _count(draw, lo, hi):
     """mostly small counts, sometimes the maximum the stack allows"""
-    k = draw(st.integers(0, 9))
+    k = draw(_int(0, 9))
     if k <= 5:
-        return min(hi, lo + draw(st.integers(0, 2)))
+        return min(hi, lo + draw(_int(0, 2)))
     if k <= 7:
         return draw(st.integers(lo, hi))
     return hi if k == 8 else max(lo, hi - 1)
@@ -158,7 +194,7 @@ def _special_op(draw, form, frac, limit):
     num = _numbers(frac)
 
     def nums(n, s=num):
-        return draw(st.lists(s, min_size=n, max_size=n))
+        return draw(_lists(s, n))
 
     if form == "rlineto":
         return "rlineto", nums(2 * _count(draw, 1, limit // 2))
@@ -187,7 +223,7 @@ def _special_op(draw, form, frac, limit):
     if form == "rlinecurve":
         return "rlinecurve", nums(2 * _count(draw, 1, (limit - 6) // 2) + 6)
     if form == "flex":
-        return "flex", nums(12) + [draw(st.sampled_from([50, 0, 100, 3, 1000]))]
+        return "flex", nums(12) + [draw(_pick([50, 0, 100, 3, 1000]))]
     if form == "hflex":
         return "hflex", nums(7)
     if form == "hflex1":
@@ -210,12 +246,12 @@ def _vec(draw, cat, frac):
 
 def _general_run(draw, kind, frac, long=False):
     """-> list of (op, args) in general form (one segment per operator) with chosen zero patterns."""
-    n = draw(st.integers(1, 5)) if not long else draw(st.integers(6, 30))
+    n = draw(_int(1, 5)) if not long else draw(_int(6, 30))
     out = []
     cats = "rhv0"
 
     def curve(c1, c2):
-        mid = draw(st.lists(_numbers(frac), min_size=2, max_size=2))
+        mid = draw(_lists(_numbers(frac), 2))
         return ("rrcurveto", _vec(draw, c1, frac) + mid + _vec(draw, c2, frac))
 
     if kind.startswith("alt-lines"):
@@ -234,30 +270,30 @@ def _general_run(draw, kind, frac, long=False):
     elif kind in ("hv-chain", "vh-chain"):
         a, b = kind[0], kind[1]
         for i in range(n):
-            last = i == n - 1 and draw(st.booleans())
+            last = i == n - 1 and draw(_B)
             out.append(curve(a, "r" if last else b))
             a, b = b, a
     elif kind in ("hh-chain", "vv-chain"):
         c = kind[0]
         for i in range(n):
-            first = i == 0 and draw(st.booleans())
+            first = i == 0 and draw(_B)
             out.append(curve("r" if first else c, c))
     elif kind == "rr-curves":
         for _ in range(n):
             out.append(curve("r", "r"))
     elif kind == "cat-curves":
         for _ in range(n):
-            out.append(curve(draw(st.sampled_from(cats)), draw(st.sampled_from(cats))))
+            out.append(curve(draw(_pick(cats)), draw(_pick(cats))))
     elif kind == "zero-curve":
-        out.append(("rrcurveto", [0, 0] + draw(st.lists(_numbers(frac), min_size=2, max_size=2)) + [0, 0]))
-        if draw(st.booleans()):
+        out.append(("rrcurveto", [0, 0] + draw(_lists(_numbers(frac), 2)) + [0, 0]))
+        if draw(_B):
             out.append(("rrcurveto", [0, 0, 0, 0, 0, 0]))
     else:  # line-curve-mix
         for _ in range(n):
-            if draw(st.booleans()):
-                out.append(("rlineto", _vec(draw, draw(st.sampled_from(cats)), frac)))
+            if draw(_B):
+                out.append(("rlineto", _vec(draw, draw(_pick(cats)), frac)))
             else:
-                out.append(curve(draw(st.sampled_from(cats)), draw(st.sampled_from(cats))))
+                out.append(curve(draw(_pick(cats)), draw(_pick(cats))))
     return out
 
 
@@ -270,7 +306,7 @@ def _hint_block(draw, frac, budget0, limit):
     (limit minus a pending width)."""
     toks = []
     nstems = 0
-    masks = draw(st.integers(0, 3)) > 0
+    masks = draw(_int(0, 3)) > 0
     num = _numbers(frac, big=True)
     first = [True]
 
@@ -283,23 +319,23 @@ def _hint_block(draw, frac, budget0, limit):
         k = _count(draw, 1, min(room, 24))
         if nstems + k > 96:
             return
-        toks.extend(draw(st.lists(num, min_size=2 * k, max_size=2 * k)))
+        toks.extend(draw(_lists(num, 2 * k)))
         toks.append(name)
         nstems += k
         first[0] = False
 
-    hname = "hstemhm" if masks and draw(st.integers(0, 4)) else "hstem"
-    vname = "vstemhm" if masks and draw(st.integers(0, 4)) else "vstem"
-    for _ in range(draw(st.sampled_from([0, 1, 1, 1, 2, 3]))):
+    hname = "hstemhm" if masks and draw(_int(0, 4)) else "hstem"
+    vname = "vstemhm" if masks and draw(_int(0, 4)) else "vstem"
+    for _ in range(draw(_pick([0, 1, 1, 1, 2, 3]))):
         stem_op(hname)
-    nv = draw(st.sampled_from([0, 1, 1, 2]))
-    implicit = masks and nv > 0 and draw(st.booleans())
+    nv = draw(_pick([0, 1, 1, 2]))
+    implicit = masks and nv > 0 and draw(_B)
     for i in range(nv):
         if implicit and i == nv - 1:
             room = min((budget0 if first[0] else limit) // 2, 96 - nstems, 24)
             if room >= 1:
                 k = _count(draw, 1, room)
-                toks.extend(draw(st.lists(num, min_size=2 * k, max_size=2 * k)))
+                toks.extend(draw(_lists(num, 2 * k)))
                 nstems += k
                 first[0] = False
             else:
@@ -310,8 +346,8 @@ def _hint_block(draw, frac, budget0, limit):
         return [], 0, False
     if masks:
         nb = (nstems + 7) // 8
-        ncm = draw(st.sampled_from([0, 0, 1, 2]))
-        nhm = draw(st.sampled_from([0, 1, 1]))
+        ncm = draw(_pick([0, 0, 1, 2]))
+        nhm = draw(_pick([0, 1, 1]))
         if implicit and ncm + nhm == 0:
             nhm = 1
         for _ in range(ncm):
@@ -332,49 +368,52 @@ def _flat_program(draw, fmt="cff", mode=None, frac=None, hint_block=None, motifs
     limit = LIMIT[fmt]
     if fmt == "cff2":
         # operand counts per operator: mostly CFF-like, sometimes up to the CFF2 stack limit
-        limit = draw(st.sampled_from([48, 48, 48, 120, 513]))
+        limit = draw(_pick([48, 48, 48, 120, 513]))
     if mode is None:
-        mode = draw(st.sampled_from(["general", "general", "special", "special", "mixed", "stress"]))
+        mode = draw(_pick(["general", "general", "special", "special", "mixed", "stress"]))
     if frac is None:
-        frac = draw(st.integers(0, 2)) == 0
+        frac = draw(_int(0, 2)) == 0
     toks = []
     spans = []
-    has_width = fmt == "cff" and width_ok and draw(st.booleans())
+    has_width = fmt == "cff" and width_ok and draw(_B)
     width = None
     if has_width:
         width = draw(st.one_of(st.integers(0, 1300), st.sampled_from([107, 108, 1131, 1132, 0, 1, 32767]), st.integers(-200, 200)))
         if nwx + width < 0:
             width = abs(width) + max(0, -nwx)
-        if frac and draw(st.integers(0, 3)) == 0:
-            width += draw(st.sampled_from([0.5, 0.25, 1 / 65536.0]))
+        if nwx + width > 32767:
+            # hmtx/OS/2 consumers (and HarfBuzz) treat advances as int16
+            width = 32767 - nwx
+        if frac and draw(_int(0, 3)) == 0:
+            width += draw(_pick([0.5, 0.25, 1 / 65536.0]))
         toks.append(width)
     budget0 = limit - (1 if has_width else 0)
     nstems = 0
-    shape = draw(st.integers(0, 19))  # 0: empty glyph
+    shape = draw(_int(0, 19))  # 0: empty glyph
     if hint_block is not None:
         hb_toks, hb_n, hb_budget = hint_block
         if hb_budget <= budget0:
             spans.append((len(toks), len(toks) + len(hb_toks)))
             toks += hb_toks
             nstems = hb_n
-    elif draw(st.integers(0, 2)) > 0 or shape == 1:
+    elif draw(_int(0, 2)) > 0 or shape == 1:
         h, nstems, _ = _hint_block(draw, frac, budget0, limit)
         toks += h
     first_done = len(toks) > (1 if has_width else 0)
     track = _Track(fmt)
-    nsub = 0 if shape <= 1 else draw(st.sampled_from([1, 1, 1, 2, 2, 3, 4]))
+    nsub = 0 if shape <= 1 else draw(_pick([1, 1, 1, 2, 2, 3, 4]))
     nb = (nstems + 7) // 8
     for si in range(nsub):
         # moveto
-        big = draw(st.integers(0, 5)) == 0
-        mv = draw(st.lists(_numbers(frac, big=big), min_size=2, max_size=2))
+        big = draw(_int(0, 5)) == 0
+        mv = draw(_lists(_numbers(frac, big=big), 2))
         if mode not in ("general", "stress"):
-            k = draw(st.integers(0, 3))
+            k = draw(_int(0, 3))
             if k == 0:
                 mv[1] = 0
             elif k == 1:
                 mv[0] = 0
-        if mode in ("general", "stress") or (mv[0] != 0 and mv[1] != 0) or draw(st.integers(0, 4)) == 0:
+        if mode in ("general", "stress") or (mv[0] != 0 and mv[1] != 0) or draw(_int(0, 4)) == 0:
             op, args = "rmoveto", mv
         elif mv[1] == 0:
             op, args = "hmoveto", mv[:1]
@@ -386,19 +425,19 @@ def _flat_program(draw, fmt="cff", mode=None, frac=None, hint_block=None, motifs
             track.apply(op, args)
         toks += args + [op]
         first_done = True
-        if mode == "general" and draw(st.integers(0, 7)) == 0:
+        if mode == "general" and draw(_int(0, 7)) == 0:
             # consecutive movetos (merged by the specialiser)
-            a2 = _fit(track, "rmoveto", draw(st.lists(_numbers(frac), min_size=2, max_size=2)))
+            a2 = _fit(track, "rmoveto", draw(_lists(_numbers(frac), 2)))
             if a2 is not None:
                 toks += a2 + ["rmoveto"]
         # path operators
-        nops = draw(st.sampled_from([0, 1, 2, 2, 3, 3, 4, 5, 6, 8]))
+        nops = draw(_pick([0, 1, 2, 2, 3, 3, 4, 5, 6, 8]))
         if mode == "stress":
             nops = min(nops, 3)
         for _ in range(nops):
-            if nstems and draw(st.integers(0, 5)) == 0:
+            if nstems and draw(_int(0, 5)) == 0:
                 toks += ["hintmask", draw(st.binary(min_size=nb, max_size=nb))]
-            use_motif = motifs and draw(st.integers(0, 3)) == 0
+            use_motif = motifs and draw(_int(0, 3)) == 0
             if use_motif:
                 m = draw(st.sampled_from(list(motifs)))
                 ops = [(o, list(a)) for o, a in m]
@@ -414,14 +453,14 @@ def _flat_program(draw, fmt="cff", mode=None, frac=None, hint_block=None, motifs
                     toks += a + [o]
                 spans.append((start, len(toks)))
                 continue
-            general = mode == "general" or (mode == "mixed" and draw(st.booleans()))
+            general = mode == "general" or (mode == "mixed" and draw(_B))
             if mode == "stress":
                 # long runs of lines and oblique curves only: merged up to the stack limit
-                ops = _general_run(draw, draw(st.sampled_from(_STRESS_RUNS)), frac, long=True)
+                ops = _general_run(draw, draw(_pick(_STRESS_RUNS)), frac, long=True)
             elif general:
-                ops = _general_run(draw, draw(st.sampled_from(_GENERAL_RUNS)), frac)
+                ops = _general_run(draw, draw(_pick(_GENERAL_RUNS)), frac)
             else:
-                ops = [_special_op(draw, draw(st.sampled_from(_SPECIAL_FORMS)), frac, limit)]
+                ops = [_special_op(draw, draw(_pick(_SPECIAL_FORMS)), frac, limit)]
             for o, a in ops:
                 a = _fit(track, o, a)
                 if a is not None:
@@ -448,7 +487,7 @@ def cff2_programs(draw):
     partly replaced by blend operators; optional leading vsindex."""
     base = draw(_flat_program(fmt="cff2", width_ok=False))
     regions = draw(st.sampled_from([[1, 2], [2, 1], [2, 3], [3, 1], [1, 1]]))
-    vs = draw(st.sampled_from([None, None, 0, 1]))
+    vs = draw(_pick([None, None, 0, 1]))
     k = regions[vs or 0]
     toks = base["prog"]
     out = []
@@ -462,7 +501,7 @@ def cff2_programs(draw):
     first_op_blends = 0
     seen_first_op = False
     nblend = 0
-    style = draw(st.sampled_from(["sparse", "dense", "single", "none"]))
+    style = draw(_pick(["sparse", "dense", "single", "none"]))
     while i < n:
         # operand run [i, j)
         j = i
@@ -472,7 +511,7 @@ def cff2_programs(draw):
         pos = 0
         depth = 0
         while pos < len(run):
-            want = style != "none" and draw(st.integers(0, 9)) < (7 if style == "dense" else 3)
+            want = style != "none" and draw(_int(0, 9)) < (7 if style == "dense" else 3)
             if want and not seen_first_op and first_op_blends >= 1:
                 want = False  # excluded class: >= 2 blend operators before the first stack-clearing operator
             if want:
@@ -481,7 +520,7 @@ def cff2_programs(draw):
                     want = False
             if want:
                 out += run[pos : pos + m]
-                out += draw(st.lists(delta, min_size=m * k, max_size=m * k))
+                out += draw(_lists(delta, m * k))
                 out += [m, "blend"]
                 pos += m
                 depth += m
@@ -548,6 +587,7 @@ def _outlined(draw, flats, spans_list):
     -> (sub_programs, lsubrs_desc, gsubrs_desc)"""
     bodies = {"l": [], "g": []}  # list of item lists
     keys = {}
+    notes = []
 
     def flat_of(items):
         out = []
@@ -571,9 +611,9 @@ def _outlined(draw, flats, spans_list):
             p += len(a)
         cuts = []
         for s, e in spans:
-            if draw(st.integers(0, 4)) > 0 and s in tokpos and (e in tokpos or e == p):
+            if draw(_int(0, 4)) > 0 and s in tokpos and (e in tokpos or e == p):
                 cuts.append(("span", tokpos.index(s), tokpos.index(e) if e in tokpos else len(atoms)))
-        ncuts = draw(st.sampled_from([0, 1, 1, 2, 2, 3, 4]))
+        ncuts = draw(_pick([0, 1, 1, 2, 2, 3, 4]))
         # span cuts are expressed in original atom indices: apply them first, right to left
         cuts.sort(key=lambda c: -c[1])
         last_start = len(atoms) + 1
@@ -583,15 +623,15 @@ def _outlined(draw, flats, spans_list):
                 todo.append((i, j))
                 last_start = i
         for i, j in todo:
-            items = _cut(draw, items, i, j, bodies, keys, flat_of)
+            items = _cut(draw, items, i, j, bodies, keys, flat_of, notes)
         for _ in range(ncuts):
             n = len(items)
             if n == 0:
                 break
             i = draw(st.integers(0, n - 1))
-            ln = draw(st.sampled_from([0, 1, 1, 2, 3, 5, 8, 13, 40]))
+            ln = draw(_pick([0, 1, 1, 2, 3, 5, 8, 13, 40]))
             j = min(n, i + ln)
-            items = _cut(draw, items, i, j, bodies, keys, flat_of)
+            items = _cut(draw, items, i, j, bodies, keys, flat_of, notes)
         progs.append(items)
 
     # final numbering with padding
@@ -602,11 +642,11 @@ def _outlined(draw, flats, spans_list):
             pad = "none"
         n = len(real)
         if pad == "1131":
-            n = 1240 + draw(st.integers(0, 40)) + len(real)
+            n = 1240 + draw(_int(0, 40)) + len(real)
         elif pad == "32768":
-            n = 33900 + draw(st.integers(0, 40)) + len(real)
-        elif real and draw(st.integers(0, 3)) == 0:
-            n = len(real) + draw(st.integers(1, 230))
+            n = 33900 + draw(_int(0, 40)) + len(real)
+        elif real and draw(_int(0, 3)) == 0:
+            n = len(real) + draw(_int(1, 230))
         bias = ref_t2.subr_bias(n)
         cand = [0, 1, 2, n - 1, n - 2, bias, bias - 1, bias + 1, bias - 107, bias + 107, bias - 108, bias + 108, bias - 1131, bias + 1131, bias + 1132]
         cand = [c for c in cand if 0 <= c < n]
@@ -640,23 +680,30 @@ def _outlined(draw, flats, spans_list):
         for bi, (items, term) in enumerate(bodies[kind]):
             at.append([pos[bi], resolve(items, term)])
         descs[kind] = dict(n=n, at=sorted(at))
-    return sub_progs, descs["l"], descs["g"]
+    return sub_progs, descs["l"], descs["g"], notes
 
 
-def _cut(draw, items, i, j, bodies, keys, flat_of):
+def _cut(draw, items, i, j, bodies, keys, flat_of, notes):
     """Replace items[i:j] by a call to a (possibly shared) subroutine holding them."""
     body = items[i:j]
     depth = items[i][2] if i < len(items) else 0
     if depth + 1 > LIMIT["cff"]:
         return items
     ends_char = bool(body) and body[-1][0] == "tok" and body[-1][1] == ("endchar",)
-    if ends_char and draw(st.booleans()):
+    if ends_char and (len(body) == 1 or draw(_B)):
+        if len(body) == 1:
+            # excluded class (finding): remove_hints deletes the call to a subr that is only "endchar"
+            notes.append("subr-consisting-only-of-endchar")
         # leave endchar in the caller
         body = body[:-1]
         j -= 1
         ends_char = False
+    if not body and depth != 0:
+        # excluded class (finding): remove_hints treats a subr "<operands> <call to empty subr>" as empty
+        notes.append("call-to-empty-subr-with-pending-operands")
+        return items
     term = None if ends_char else "return"
-    kind = draw(st.sampled_from("llg"))
+    kind = draw(_pick("llg"))
     flat_body = []
     for it in body:
         if it[0] == "tok":
@@ -679,36 +726,42 @@ def fonts(draw, max_glyphs=5):
     {"kind": "font", "dwx", "nwx", "flat": [prog...], "sub": [prog...], "lsubrs": desc, "gsubrs": desc,
      "modes": [...], "frac": [...], "hintvals": bool}"""
     ng = draw(st.integers(1, max_glyphs))
-    frac_font = draw(st.integers(0, 2)) == 0
+    frac_font = draw(_int(0, 2)) == 0
     nwx = draw(st.one_of(st.integers(0, 1200), st.sampled_from([0, 107, 108, 500, 600, 1131]), st.integers(-300, 0)))
     dwx = max(0, draw(st.one_of(st.integers(0, 1200), st.just(nwx), st.sampled_from([0, 500, 600, 1000]))))
     shared_hints = None
-    if draw(st.integers(0, 2)) == 0:
+    if draw(_int(0, 2)) == 0:
         h, n, _ = _hint_block(draw, False, LIMIT["cff"] - 1, LIMIT["cff"])
         if n:
             shared_hints = (h, n, LIMIT["cff"] - 1)
     motifs = []
-    for _ in range(draw(st.sampled_from([0, 0, 1, 2]))):
+    for _ in range(draw(_pick([0, 0, 1, 2]))):
         ops = []
-        for _ in range(draw(st.integers(1, 3))):
-            if draw(st.booleans()):
-                ops.append(_special_op(draw, draw(st.sampled_from(_SPECIAL_FORMS)), False, 12))
+        for _ in range(draw(_int(1, 3))):
+            if draw(_B):
+                ops.append(_special_op(draw, draw(_pick(_SPECIAL_FORMS)), False, 12))
             else:
-                ops.extend(_general_run(draw, draw(st.sampled_from(_GENERAL_RUNS)), False)[:2])
+                ops.extend(_general_run(draw, draw(_pick(_GENERAL_RUNS)), False)[:2])
         motifs.append([(o, [_shrink_val(v) for v in a]) for o, a in ops])
     flats, spans, modes, fracs = [], [], [], []
     for gi in range(ng):
-        use_shared = shared_hints is not None and draw(st.integers(0, 3)) > 0
-        g = draw(_flat_program(fmt="cff", frac=(frac_font and draw(st.booleans())), hint_block=shared_hints if use_shared else None, motifs=motifs, nwx=nwx))
+        use_shared = shared_hints is not None and draw(_int(0, 3)) > 0
+        g = draw(_flat_program(fmt="cff", frac=(frac_font and draw(_B)), hint_block=shared_hints if use_shared else None, motifs=motifs, nwx=nwx))
         flats.append(g["prog"])
         spans.append(g["spans"])
         modes.append(g["mode"])
         fracs.append(g["frac"])
-    if draw(st.integers(0, 5)) == 0:
-        sub, ld, gd = list(flats), dict(n=0, at=[]), dict(n=0, at=[])
+    if draw(_int(0, 5)) == 0:
+        sub, ld, gd, notes = list(flats), dict(n=0, at=[]), dict(n=0, at=[]), []
     else:
-        sub, ld, gd = draw(_outlined(flats, spans))
-    return dict(kind="font", dwx=dwx, nwx=nwx, flat=flats, sub=sub, lsubrs=ld, gsubrs=gd, modes=modes, frac=fracs, hintvals=draw(st.booleans()))
+        sub, ld, gd, notes = draw(_outlined(flats, spans))
+        for gi, fl in enumerate(flats):
+            if len(fl) == 2 and fl[1] == "endchar" and sub[gi] != fl:
+                notes.append("width-of-an-empty-glyph-inside-a-subr")
+                # excluded class (finding): a glyph that is only "w endchar" with the width inside a
+                # subroutine keeps its width operand when converted to CFF2
+                sub[gi] = list(fl)
+    return dict(kind="font", dwx=dwx, nwx=nwx, flat=flats, sub=sub, lsubrs=ld, gsubrs=gd, modes=modes, frac=fracs, hintvals=draw(_B), gen_excluded=notes)
 
 
 # ---------------------------------------------------------------------------
